@@ -67,7 +67,7 @@ func init() {
 func init() {
 	registerProperty(&Property{
 		ID:          "C03",
-		Rules:       []string{"visit", "containers", "ref-clear", "ref-store", "opts-copy-complete", "cut-check", "location-prefix"},
+		Rules:       []string{"visit", "containers", "ref-clear", "ref-store", "opts-copy-complete", "cut-check", "location-prefix", "denorm-final"},
 		Explanation: "Decides the per-site disciplines 'only cycle cut-points remain' rests on. visit: every access path from Schema to a nested Schema (enumerated from the types, so a new schema-bearing field adds an obligation) is passed to the schema expander and the dereferenced result stored back at the same path. containers: every holder of refable elements (Swagger, PathItem, Operation, Parameter, Response; positions enumerated from the types) is handed to the matching expander, and by-value copies are written back. ref-clear (go/cfg must-analysis): every path from a completed dereference to a successful return stores the zero Ref into the holder. ref-store: every other store into a schema's Ref is a rewrite of a normalised reference against the root context (basePath, rootID) - or the normalised reference itself under AbsoluteCircularRef - and is control-dependent on isCircular having returned true, on skip-schemas mode, or on the empty-root-ref guard. location-prefix: a location (URL text, URL path) is used as a string prefix of another only where it is known to be empty or slash-terminated, so the relative $ref kept at a cut-point is cut at a segment boundary.",
 		NotCovered:  "that a kept $ref actually resolves to a node on a cycle; that denormalizeRef/rebase compute the right relative form; determinism of the output beyond C06's rules",
 	})
@@ -76,7 +76,7 @@ func init() {
 func init() {
 	registerProperty(&Property{
 		ID:          "C04",
-		Rules:       []string{"cut-check", "nilres", "no-panic-path", "ptr-fill-guard", "typed-nil-guard", "err-before-use-expand"},
+		Rules:       []string{"cut-check", "nilres", "no-panic-path", "ptr-fill-guard", "typed-nil-guard", "err-before-use-expand", "id-once"},
 		Explanation: "Termination over all graphs is not decidable here; decided are the mechanism's necessary conditions. cut-check: every cyclic SCC of the package's static call graph is classified call site by call site as structural descent (argument strictly below the callee's parameter, parent stack passed unchanged) or reference following (on every path to the recursive call isCircular(k, base, parentRefs...) returned false for a normalised k, and the call receives append(parentRefs, k.String()) for that same k); recursion outside the family, or a cycle of pass-through calls, is a violation; isCircular uses one normalised key for memo lookup, stack comparison and memo store. nilres: a nil *Schema result implies a provably non-nil error, and results are dereferenced only after a plain err != nil return or under an explicit != nil guard. no-panic-path: the panic-capable constructs (Must*, panic, unchecked type assertions, unguarded index/slice expressions, stores into possibly-nil maps) reachable from the exported Expand*/Resolve* entry points equal an audited table. err-before-use-expand: a pointer result that comes with an error is dereferenced only where that error is known to be nil or the pointer known non-nil (or was repaired on the error path).",
 		NotCovered:  "that the loop variant is bounded (id-driven base path growth makes canonical keys unbounded - invisible structurally), stack depth, work bounds, panics inside dependencies",
 	})
@@ -94,13 +94,13 @@ func init() {
 func init() {
 	registerProperty(&Property{
 		ID:          "C02",
-		Rules:       []string{"thread-args", "switch-on-follow", "ref-store", "opts-copy-complete", "loader-shares-state", "entry-wiring", "location-prefix"},
+		Rules:       []string{"thread-args", "switch-on-follow", "ref-store", "opts-copy-complete", "loader-shares-state", "entry-wiring", "location-prefix", "chain-ref-absolute", "denorm-final"},
 		Explanation: "Bisimilarity is a relation between run-time graphs and is not decided. Decided are the threading disciplines behind 'a $ref is always interpreted relative to the document that textually contains it': at every call between expander family members (found by role) the base-path argument derives only from the caller's own base path, from id re-scoping (setSchemaID), from updateBasePath for the resolver just created, or from RemoteURI() of the normalised ref just followed, and the loader argument only from the caller's loader or from transitiveResolver(current base, the $ref being followed) (thread-args); after a followed $ref, whatever is expanded next receives the transitive resolver and the updated base (switch-on-follow); kept refs are rewritten against the root frame (ref-store). location-prefix: 'same document' and 'below this folder' are never decided by a plain string prefix of one location in another (spec.json vs spec.json2); two genuine defects of that kind were found and repaired.",
 		NotCovered:  "that normalizeURI, transitiveResolver's prefix test or resolveRef's root selection compute the right document (values) - in particular the wrong-document resolutions on multi-hop chains the property text mentions are value-level and invisible to these rules; map iteration order effects",
 	})
 	registerProperty(&Property{
 		ID:          "C09",
-		Rules:       []string{"skip-shape", "containers", "ref-clear", "ref-store", "opts-copy-complete", "switch-on-follow", "thread-args", "entry-wiring", "location-prefix"},
+		Rules:       []string{"skip-shape", "containers", "ref-clear", "ref-store", "opts-copy-complete", "switch-on-follow", "thread-args", "entry-wiring", "location-prefix", "denorm-final"},
 		Explanation: "Decides the shape of skip-schemas mode: in the schema expander the statements executed under SkipSchemas call nothing that resolves references, change nothing but the schema's Ref and return the target itself; that Ref store is a root-frame rewrite of a normalised reference (ref-store). In ExpandSpec only the definitions loop is control-dependent on !SkipSchemas; parameters, responses and path items are expanded unconditionally, completely dereferenced and cleared (containers, ref-clear), and the schema below a dereferenced parameter/response is still handed to the schema expander so nested refs are rebased. location-prefix: the folder a kept $ref is rebased against is slash-terminated where it is trimmed.",
 		NotCovered:  "that the rebased string designates the same target; that a later full expansion gives the same outcome as a direct one",
 	})
